@@ -72,6 +72,6 @@ Proof. exact entity_instances_terminates. Qed.
 Theorem C16_page_loop_at_most_256_requests : forall serve out n,
   get_entity_instances serve = Some (out, n) -> (n <= 256)%nat.
 Proof. exact entity_instances_at_most_256. Qed.
-Theorem C16_entity_ids_tie : G.ipmiSensorEntityIDs = ipmi_entities /\ G.dcmiSensorEntityIDs = dcmi_entities /\
+Theorem C16_entity_ids_tie : present_then nlist_eqb G.entity_groups [ipmi_entities; dcmi_entities] = true /\
   G.EntityIDAirInlet = 0x37 /\ G.EntityIDProcessor = 0x03 /\ G.EntityIDSystemBoard = 0x07.
-Proof. repeat split; reflexivity. Qed.
+Proof. split; [exact tie_entities|repeat split; reflexivity]. Qed.
